@@ -767,12 +767,33 @@ def run3(env, src, data):
         return a
 
 
+# sources that only STRICT mode rejects (documented strict-only syntax checks: a trailing dot, a missing comma between
+# arguments): LAX and WARN accept them, so there is nothing for WARN to report
+STRICT_ONLY = {"{{ x. }}", "{{ x.[0] }}", "{{ x['a'] b }}", "{{ x[0] b }}", "{{ x | slice: 0,, 1 }}", "{% render 'p', v: 1 w: 2 %}",
+               "{% with a: 1 b: 2 %}a{% endwith %}"}
+_STRICT3 = Environment(extra=True, loader=DictLoader(PARTIALS3))
+
+
+def warn_count(src, data):
+    with warnings.catch_warnings(record=True) as log:
+        warnings.simplefilter("always")
+        try:
+            ENVS3[Mode.WARN].from_string(src).render(**data)
+        except Exception:
+            pass
+    return len(log)
+
+
 def r3(group, k, d):
     src = pick(BAD[group], k)
     data = pick(DATA3, d)
     rl = run3(ENVS3[Mode.LAX], src, data)
     rw = run3(ENVS3[Mode.WARN], src, data)
-    return rl[0] in ("ok", "other") and rl == rw
+    ok = rl[0] in ("ok", "other") and rl == rw
+    if ok and src not in STRICT_ONLY and run3(_STRICT3, src, data)[0] in ("parse-raise", "render-raise"):
+        # STRICT raises a Liquid error that the tolerant modes suppress: WARN reports it
+        ok = warn_count(src, data) >= 1
+    return ok
 
 
 def _mk_r3(group):
@@ -791,7 +812,8 @@ def _mk_r3(group):
         return finish(untraced(lambda: r3(group, ck, cd)))
     f.__name__ = f.__qualname__ = nm
     DETAIL[nm] = lambda k, d: {"source": BAD[group][k], "data": DATA3[d], "lax": run3(ENVS3[Mode.LAX], BAD[group][k], DATA3[d]),
-                               "warn": run3(ENVS3[Mode.WARN], BAD[group][k], DATA3[d])}
+                               "warn": run3(ENVS3[Mode.WARN], BAD[group][k], DATA3[d]), "strict": run3(_STRICT3, BAD[group][k], DATA3[d]),
+                               "warnings in WARN mode": warn_count(BAD[group][k], DATA3[d])}
     return nm, f
 
 
@@ -967,7 +989,7 @@ ASSUMPTIONS = [
     "R1: template sources are concrete valid skeletons (SKEL, SKEL_X); x, y : None | bool | int (-1..9) | str (<= 2 chars over 'a1 '), list length 0..3 are symbolic; the three environments differ only in `tolerance`",
     "R1 asserts for LAX/WARN only what the statement says: no LiquidError escapes; other exception classes are C02's subject and only have to agree between LAX and WARN",
     "R2: exception class = selector over every LiquidError subclass defined in liquid/exceptions.py (collected by introspection), mode = selector; stub tags/nodes are registered in harness environments; Parser kernel calls Environment._parse (from_string additionally wraps non-syntax errors in a generic LiquidError)",
-    "R3 is program-only enumeration (selector over a generated family of malformed sources x 3 fixed data sets); warnings are not asserted there (several strict-only checks are skipped outside STRICT mode, so no error object exists to report)",
+    "R3 is program-only enumeration (selector over a generated family of malformed sources x 3 fixed data sets); WARN must emit at least one warning whenever STRICT raises a Liquid error, except for the 7 listed sources that only STRICT mode's extra syntax checks reject (STRICT_ONLY)",
     "warnings are observed with warnings.catch_warnings(record=True) + simplefilter('always') inside each condition",
 ]
 OUTSIDE = [
